@@ -19,7 +19,7 @@ ASSUMPTIONS = [
     "domain as C01; the replay reads atomica's parameter arrays (their correctness is C06's subject) and state at index t and predicts links(t) and state(t+1)",
     "grid predicate: when (end-start)/dt is within 1e-12 (relative) of an integer k the run must have k steps; between 1e-12 and 1e-8 both k and ceil are accepted",
 ]
-BUDGET = {"quick": 6000, "thorough": 48000}  # thorough = 8x quick: a depth that was run to completion, quiet, at seed 1 (deterministic given the seed)
+BUDGET = {"quick": 6000, "thorough": 24000}  # thorough = 4x quick: a depth that was run to completion, quiet, at seed 1 (deterministic given the seed)
 TIME_CAP = {"quick": 75, "thorough": 1500}
 PROFILE = {"p_programs": 0.3, "p_second_type": 0.15, "p_function": 0.3, "extreme": 0.15, "max_steps": 25, "p_timed": 0.5, "p_junction": 0.5}
 
